@@ -201,11 +201,11 @@ SPEC = dict(
 )
 
 MANIFEST = dict(
-    text='16 Coq theorems over R on the regenerated piecewise solvers (both modules): every (omega, eta) returned by find_omega_general, find_omega_quart and '
+    text='17 Coq theorems over R on the regenerated piecewise solvers (both modules): every (omega, eta) returned by find_omega_general, find_omega_quart and '
          'find_omega_wedge satisfies the diffraction condition under form_omega_mat_general / quart_to_omega / Ry(-wedge).Rz(omega), omega in (-pi, pi], every omega that '
          'meets the x-condition is returned (completeness), 0 / 2 solutions by the sign of the discriminant (|cos eta| > 1 for the wedge solver); find_omega is sound and '
-         'in range; tth = 2 asin(lambda sintl) = tth2(U.B.hkl). Agreement of the solvers at zero tilt is decided numerically on the implementation.',
+         'in range; tth = 2 asin(lambda sintl) = tth2(U.B.hkl). At zero tilt find_omega_general, find_omega_quart and find_omega_wedge return the same set of omega and contain every omega of find_omega (theorem).',
     design_ref='DESIGN.md section 5 C09 and section 10',
     note='Trusted: Coq kernel, R axioms, T1 tracer, Atan2.v. The wedge theorems assume the code\'s own divisor a is non-zero (a = 0 is a division by zero in the code).',
-    technique='Coq proof over R of generated piecewise model (atan2 lemmas + nsatz); numeric search for cross-solver agreement',
+    technique='Coq proof over R of generated piecewise model (atan2 lemmas + nsatz); numeric search on the implementation',
 )
